@@ -54,7 +54,8 @@ impl Property for C16 {
          value (key, each of the t-1 coefficient commitments, proof-of-knowledge R, each free repair delta, each refreshing commitment, \
          randomizer seed, signature R) changes; (independent) once per recorded draw with only that draw's bytes changed: every such value \
          must change under some single-draw perturbation and no single-draw perturbation may change two values that must be independent; \
-         (distinct) no two of them coincide within one call; the number of draws is at least the number of secrets. One evaluation per \
+         (distinct) no two of them coincide within one call; (extreme) with one recorded draw at a time forced to 0xff..ff the call \
+         still succeeds with pairwise distinct values; the number of draws is at least the number of secrets. One evaluation per \
          case. non-trivial = every case; distinct = distinct (suite, entry point, n, t) tuples"
             .into()
     }
@@ -94,6 +95,7 @@ impl Property for C16 {
         let m = tier.pick(30, 300);
         let mut v: Vec<(String, u64)> = ENTRY.iter().map(|e| (format!("entry:{e}"), m)).collect();
         v.push(("secrets>=4".into(), m));
+        v.push(("extreme-draw".into(), m));
         v
     }
     fn check(&self, suite: SuiteId, case: &Case, ctx: &mut Ctx) -> CheckResult {
@@ -314,6 +316,44 @@ fn check<C: Suite>(case: &Case, ctx: &mut Ctx) -> CheckResult {
     }
     for (a, b) in base.fixed.iter().zip(&other.fixed) {
         ensure!(ctx, a.1 == b.1, "C16/fixed-value-changed", "{} depends on the random source ({desc})", a.0);
+    }
+
+    // (extreme output) every output of the source is legitimate: one recorded draw at a time is forced to all-0xff bytes
+    // (for rejection-sampling fields a candidate above the group order, which has to be redrawn, not mapped to a fixed
+    // value). The call still succeeds, the values stay pairwise distinct, and they still follow the rest of the source.
+    if entry != 9 {
+        let spec2 = TapeSpec::Random(case.tape_seed ^ 0x0f0f_f0f0_1234_5678);
+        for (d, (off, len)) in base.draws.iter().enumerate().take(8) {
+            if *len == 0 {
+                continue;
+            }
+            ctx.label("extreme-draw");
+            let a = match run_entry::<C>(entry, &st, spec.force(*off, *len, 0xff)) {
+                Ok(o) => o,
+                Err(f) if f.key == "C16/entry-point-failed" => {
+                    return ctx.fail("C16/extreme-source-output-mishandled", format!("draw #{d} ({len} bytes at offset {off}) forced to 0xff..ff: the call fails: {} ({desc})", f.msg));
+                }
+                Err(f) => return Err(f),
+            };
+            ensure!(ctx, a.independent.len() == base.independent.len(), "C16/harness", "shape of the result changed");
+            for i in 0..a.independent.len() {
+                for j in i + 1..a.independent.len() {
+                    ensure!(ctx, a.independent[i].1 != a.independent[j].1, "C16/values-coincide", "{} and {} coincide when draw #{d} is 0xff..ff ({desc})", a.independent[i].0, a.independent[j].0);
+                }
+            }
+            // the same forced draw on a different source: no value may be pinned by the forced bytes alone
+            if let Ok(b) = run_entry::<C>(entry, &st, spec2.force(*off, *len, 0xff)) {
+                if b.independent.len() == a.independent.len() {
+                    for (x, y) in a.independent.iter().zip(&b.independent) {
+                        // a value drawn exactly from the forced bytes is the same in both runs for fields that reduce
+                        // (not reject) - allowed; but it must not be the neutral value
+                        if x.1 == y.1 {
+                            ensure!(ctx, !x.1.is_empty() && x.1.iter().any(|v| *v != 0), "C16/extreme-source-output-mishandled", "{} collapses to an empty/zero encoding when draw #{d} is 0xff..ff ({desc})", x.0);
+                        }
+                    }
+                }
+            }
+        }
     }
 
     // (independent) perturb each recorded draw alone
